@@ -188,6 +188,7 @@ def declare(spec):
             % (N0, G),
             'implies(result, not process.stopping and process.closed)',
             'forall(INT, lambda i: implies(0 <= i and i < %s, process.klog[i] == old(process.klog)[i]))' % N0,
+            'implies(excl, %s)' % spec.consts['$PROT'], 'wf_procs_pid(self)', 'excl == old(excl)',
         ],
         modifies=['process.klog', 'process.naps', 'process.alive_seen', 'process.stopping', 'process.closed', '*'],
         ghost_at={
@@ -205,5 +206,135 @@ def declare(spec):
             "clock >= sig_t(process.klog[%s]) + waited" % N0,
             "wf_procs_pid(self)", "not old(process.stopping)", "process.pid == old(process.pid)",
             "waited <= 0 or waited - real(1) / 10 < as_real(graceful_timeout)",
+            "implies(excl, %s)" % spec.consts['$PROT'], "excl == old(excl)",
         ], variant="as_real(graceful_timeout) - waited", fingerprint='while:waited < graceful_timeout')},
     ))
+
+    # ---- reaping (C09 exit codes, C04 accounting, C02 no zombie) ----------------------------
+    spec.ghost('reaplog', List(PUBEV))     # one entry per 'reap' event actually published
+    RKEEP = ("(length(reaplog) >= length(old(reaplog)) and forall(INT, lambda i: implies(0 <= i and "
+             "i < length(old(reaplog)), reaplog[i] == old(reaplog)[i])))")
+    spec.add(Contract(
+        'circus.watcher:Watcher.reap_process', params={'pid': INT, 'status': VAL},
+        requires=['wf_procs_pid(self)', 'is_none(status) or (is_int(status) and wstatus_ok(as_int(status)))',
+                  'pid > 0'],
+        ensures=[
+            # not ours: nothing happens
+            "implies(not (pid in old(self.processes)), reaplog == old(reaplog) and evlog == old(evlog) and "
+            "same_field('Watcher.processes') and K_child == old(K_child))",
+            # ours: unlisted, exactly one reap event for it
+            "implies(pid in old(self.processes), not (pid in self.processes) and "
+            "length(reaplog) == length(old(reaplog)) + 1 and ev_pid(last(reaplog)) == pid and "
+            "ev_w(last(reaplog)) == ref_id(self))",
+            "forall(INT, lambda k: implies(k != pid, (k in self.processes) == (k in old(self.processes)) and "
+            "self.processes[k] == old(self.processes)[k]))",
+            "len(self.processes) == len(old(self.processes)) - ite(pid in old(self.processes), 1, 0)",
+            # exit code of the event: decoded wait status (= how the kernel says the child ended)
+            "implies((pid in old(self.processes)) and is_int(status), ev_code(last(reaplog)) == wdecode(as_int(status)))",
+            "implies((pid in old(self.processes)) and is_none(status) and (pid in old(K_child)), "
+            "ev_code(last(reaplog)) == K_exit[pid])",
+            # no zombie: after reaping it is no longer an unreaped child of ours
+            "implies((pid in old(self.processes)) and is_none(status), not (pid in K_child))",
+            RKEEP, EVKEEP, 'kstep()', 'wf_procs_pid(self)',
+            "forall(INT, lambda p: implies(p in K_child, p in old(K_child)))",
+        ],
+        modifies=['self.processes', 'evlog', 'reaplog', 'hooklog', 'clock', 'K_alive', 'K_child', 'siglog',
+                  'Process.closed'],
+        ghost_at={'notify_event': ["reaplog = ite(args[0] == 'reap', reaplog + [pubev(ref_id(self), 'reap', "
+                                   "msg_int(args[1], 'process_pid'), msg_int(args[1], 'exit_code'))], reaplog)"]},
+        loops={0: Loop(invariant=[
+            "not (pid in self.processes)", "process == old(self.processes)[pid]", "not isnull(process)",
+            "pid in old(self.processes)",
+            "forall(INT, lambda k: implies(k != pid, (k in self.processes) == (k in old(self.processes)) and "
+            "self.processes[k] == old(self.processes)[k]))",
+            "reaplog == old(reaplog)", EVKEEP, 'kstep()',
+            "is_none(status) or (is_int(status) and wstatus_ok(as_int(status)))",
+            "implies(is_int(status) and is_none(init(status)), not (pid in K_child) and "
+            "wdecode(as_int(status)) == K_exit[pid] and (pid in old(K_child)))",
+            "implies(is_int(init(status)), status == init(status))",
+            "implies(is_none(status), (pid in K_child) == (pid in old(K_child)))",
+            "forall(INT, lambda p: implies(p in K_child, p in old(K_child)))",
+            "wf_procs_pid(self)",
+        ], fingerprint='while:status is None')},
+    ))
+
+    for nm, val in (('is_stopped', 'stopped'), ('is_stopping', 'stopping'), ('is_active', 'active')):
+        spec.add(Contract('circus.watcher:Watcher.%s' % nm, ret=BOOL, modifies=[],
+                          ensures=["result == (self._status == '%s')" % val],
+                          inline="self._status == '%s'" % val))
+    KCH_SHRINK = "forall(INT, lambda p: implies(p in K_child, p in old(K_child)))"
+    spec.add(Contract(
+        'circus.watcher:Watcher.reap_processes',
+        requires=['wf_procs_pid(self)', 'forall(INT, lambda k: implies(k in self.processes, k > 0))'],
+        ensures=[
+            "implies(old(self._status) == 'stopped', same_field('Watcher.processes') and reaplog == old(reaplog) "
+            "and evlog == old(evlog) and K_child == old(K_child))",
+            # every listed worker is unlisted, reported by one reap event, and is no longer an unreaped child
+            "implies(old(self._status) != 'stopped', len(self.processes) == 0 and "
+            "length(reaplog) == length(old(reaplog)) + len(old(self.processes)))",
+            "implies(old(self._status) != 'stopped', forall(INT, lambda k: implies(k in old(self.processes), "
+            "not (k in K_child))))",
+            RKEEP, EVKEEP, 'kstep()', KCH_SHRINK, 'wf_procs_pid(self)', "self._status == old(self._status)",
+        ],
+        modifies=['self.processes', 'evlog', 'reaplog', 'hooklog', 'clock', 'K_alive', 'K_child', 'siglog',
+                  'Process.closed'],
+        loops={0: Loop(invariant=[
+            "forall(INT, lambda j: implies(loop_i <= j and j < loop_n, (loop_seq[j] in self.processes) and "
+            "self.processes[loop_seq[j]] == old(self.processes)[loop_seq[j]]))",
+            "forall(INT, lambda j: implies(0 <= j and j < loop_i, not (loop_seq[j] in self.processes) and "
+            "not (loop_seq[j] in K_child)))",
+            "forall(INT, lambda k: implies(k in self.processes, k in old(self.processes)))",
+            "forall(INT, lambda j: implies(0 <= j and j < loop_n, (loop_seq[j] in old(self.processes)) and loop_seq[j] > 0))",
+            "len(self.processes) == len(old(self.processes)) - loop_i",
+            "length(reaplog) == length(old(reaplog)) + loop_i",
+            "loop_n == len(old(self.processes))",
+            RKEEP, EVKEEP, 'kstep()', KCH_SHRINK, 'wf_procs_pid(self)', "self._status == old(self._status)",
+            "self._status != 'stopped'",
+        ], fingerprint='for:list(self.processes.keys())',
+            modifies=['self.processes', 'evlog', 'reaplog', 'hooklog', 'clock', 'K_alive', 'K_child', 'siglog',
+                      'Process.closed'])},
+    ))
+
+    # ---- stop (C02) -----------------------------------------------------------------------
+    PROT = spec.consts['$PROT']
+    spec.add(Contract(
+        'circus.watcher:Watcher.get_active_processes', ret=List(Ref('Process')), trusted=True,
+        modifies=['K_alive'],
+        ensures=['kstep()',
+                 "forall(INT, lambda i: implies(0 <= i and i < length(result), not isnull(result[i]) and "
+                 "(result[i].pid in self.processes) and self.processes[result[i].pid] == result[i]))",
+                 "forall(INT, lambda k: implies((k in self.processes) and (k in K_alive), "
+                 "contains(result, self.processes[k])))",
+                 'distinct(result)'],
+        requires=['wf_procs_pid(self)'],
+        note='A-ATOMIC-COMP: [p for p in processes.values() if p.status not in (DEAD_OR_ZOMBIE, UNEXISTING)] '
+             'evaluated against one kernel snapshot: listed workers, every live one included'))
+    spec.add(Contract(
+        'circus.watcher:Watcher.kill_processes', kind='coroutine', rely='held',
+        params={'stop_signal': VAL, 'graceful_timeout': VAL},
+        requires=['wf_procs_pid(self)', 'is_none(stop_signal) or is_int(stop_signal)',
+                  'is_none(graceful_timeout) or is_num(graceful_timeout)', 'self.graceful_timeout >= 0',
+                  'implies(is_num(graceful_timeout), as_real(graceful_timeout) >= 0)'],
+        ensures=['implies(excl, %s)' % PROT, 'wf_procs_pid(self)', 'excl == old(excl)'],
+        modifies=['*']))
+    spec.add(Contract('$method.close', params={'self': VAL}, trusted=True, modifies=[],
+                      note='A-STREAMS: closing a user stream object returns and does not touch supervisor state'))
+    spec.add(Contract('circus.stream.redirector:Redirector.stop', trusted=True, modifies=[],
+                      note='placeholder until C17: no effect on the state the lifecycle contracts talk about'))
+    spec.add(Contract(
+        'circus.watcher:Watcher._stop', kind='coroutine', rely='held', params={'close_output_streams': BOOL},
+        requires=['excl', 'wf_procs_pid(self)', 'forall(INT, lambda k: implies(k in self.processes, k > 0))',
+                  'self.graceful_timeout >= 0'],
+        ensures=[
+            "self._status == 'stopped'",
+            "implies(old(self._status) == 'stopped', same_heap())",
+            # every worker the watcher listed is unlisted and has been reaped (no survivor, no zombie)
+            "implies(old(self._status) != 'stopped', len(self.processes) == 0)",
+            "implies(old(self._status) != 'stopped', forall(INT, lambda k: implies(k in old(self.processes), "
+            "not (k in K_child))))",
+            'wf_procs_pid(self)', 'excl',
+            "forall(Ref('Watcher'), lambda w: implies(w != self, w._status == old(w._status) and "
+            "w.numprocesses == old(w.numprocesses)))",
+            "same_field('Arbiter.watchers', 'Arbiter._watchers_names')",
+        ],
+        modifies=['*']))
